@@ -295,12 +295,13 @@ Definition check_driver (eps : float) (max_steps : option nat) (hs : list hook) 
   | _, [] => false
   end.
 
-(* EM ascent observed on Go's own trace: lik_t >= lik_{t-1} - 1e-9 |lik_{t-1}| *)
+(* EM ascent observed on Go's own trace: lik_t >= lik_{t-1} - 1e-9 (|lik_{t-1}| + 1)  (the absolute part covers a
+   log-likelihood that is exactly 0 up to rounding: one datum explained with probability 1) *)
 Fixpoint check_monotone (ls : list float) : bool :=
   match ls with
   | a :: ((b :: _) as r) =>
       match F2Q a, F2Q b with
-      | Some qa, Some qb => Qle_bool (qa - tolQ * Qabs qa) qb && check_monotone r
+      | Some qa, Some qb => Qle_bool (qa - tolQ * Qabs qa - tolQ) qb && check_monotone r
       | _, _ => false
       end
   | _ => true
